@@ -4,3 +4,4 @@ import Emitter.Props.C08
 #print axioms Emitter.C08.will_once
 #print axioms Emitter.C08.presence_leave
 #print axioms Emitter.C08.sync_step
+#print axioms Emitter.C08.close_history_clean
